@@ -9,7 +9,7 @@ requires), all present arbitrary dat_r. Per-cycle oracle built from memory_map.w
 import random
 
 from vmon import env  # noqa: F401
-from vmon.simkit import Top, Mon, simulate, bits
+from vmon.simkit import Top, Mon, simulate, bits, biased_bits
 
 from amaranth import Value
 from amaranth_soc import wishbone
@@ -43,7 +43,7 @@ def gen_case(rng, tier, idx):
     feats = [f for f in ALL_FEATURES if rng.random() < 0.5]
     return {"aw": aw, "dw": dw, "gran": gran, "features": feats,
             "al": rng.choice([0, 0, 0, 1, 2, 3]), "nsubs": rng.choice([0, 1, 2, 3, 4, 5, 8]),
-            "cycles": 250 if tier == "quick" else 700}
+            "cycles": (250 if tier == "quick" else 700) * (8 if rng.random() < 0.04 else 1)}
 
 
 def run_case(case):
@@ -111,7 +111,7 @@ def run_case(case):
             mon.cycle = c
             adr = rng.choice(edges) if edges and rng.random() < 0.5 else rng.randrange(nwords)
             req = {"adr": adr, "cyc": int(rng.random() < 0.75), "stb": int(rng.random() < 0.7), "we": rng.getrandbits(1),
-                   "dat_w": bits(rng, dw), "sel": bits(rng, nsel)}
+                   "dat_w": biased_bits(rng, dw), "sel": biased_bits(rng, nsel)}
             if "lock" in dfeat:
                 req["lock"] = rng.getrandbits(1)
             if "cti" in dfeat:
